@@ -413,7 +413,22 @@ func shortType(t string) string {
 	return t
 }
 
+// c05R6: the retry loop, decided from traces of Proxy.ServeHTTP (E10, see proxyTraces).  The loop-shape formulation
+// (c05R6Patterns) is kept for reference and no longer registered.
 func c05R6(h H) {
+	r := h.r
+	r.Rule("R6", "retrying as traces (E10): Proxy.ServeHTTP, evaluated with an oracle upstream, clock and backend round trip for eight scripts (first backend answers; failures followed by an answer from another or the same backend; no backend available at first; failures until the try duration is spent; the client cancels; retries disabled; a single backend), makes exactly the specified attempts — it goes on to the next backend after a failure while the try duration is not spent, stops at the first answer, at a cancellation and when the duration is spent (502), and every attempt on a buffered body follows a rewind", 2)
+	t := proxyTraces(h)
+	var pos token.Pos
+	if fn := h.p.Func(pxPkg, "Proxy.ServeHTTP"); fn != nil {
+		pos = fn.Pos()
+	}
+	n := sprintf("%d scripts evaluated", t.n)
+	r.Check(t.retry == "" && t.other == "", "R6", "proxy.Proxy.ServeHTTP/retry-trace", pos, "retrying stops only at an answer, when the client cancelled or when the configured try duration is spent, and then reports 502", n, t.retry, t.other)
+	r.Check(t.body == "" && t.other == "", "R6", "proxy.Proxy.ServeHTTP/every-attempt-gets-the-whole-body", pos, "the buffered request body is rewound before every attempt", n, t.body, t.other)
+}
+
+func c05R6Patterns(h H) {
 	r := h.r
 	r.Rule("R6", "retry loop shape: every way of leaving the retry loop without returning (the way to the final 502) lies behind 'the client cancelled' (error == context.Canceled) or 'the try duration is spent' (time.Since(start) >= GetTryDuration()) — tested in the loop itself or in a function whose every `return false` lies behind one of the two; the function's final return after the loop reports 502", 2)
 	sv := h.fn("R6", pxPkg, "Proxy.ServeHTTP")
@@ -621,6 +636,7 @@ func runC14(r *Report, p *Program) {
 	c14R4(h)
 	c14R5(h)
 	selectionTables(h, "R6")
+	c14Trace(h)
 }
 
 // c14R5: who may write the counters, and where.
@@ -1124,4 +1140,20 @@ func sameObject(a, b ssa.Value) bool {
 		return ra != nil && ra == rb
 	}
 	return false
+}
+
+
+// c14Trace: the in-flight counter along the proxy's traces: 1 on the backend an attempt is being made on, 0 on every
+// backend when the request is over, and one recorded failure per failed attempt on a backend with fail_timeout.
+func c14Trace(h H) {
+	r := h.r
+	r.Rule("R7", "accounting along the proxy's traces (E10, the scripts of C05 R6): during every attempt the chosen backend's in-flight count is 1, after the request every backend's count is 0 again, and a backend with fail_timeout has exactly one recorded failure per failed attempt on it when the request ends (their expiry is R5's matter)", 2)
+	t := proxyTraces(h)
+	var pos token.Pos
+	if fn := h.p.Func(pxPkg, "Proxy.ServeHTTP"); fn != nil {
+		pos = fn.Pos()
+	}
+	n := sprintf("%d scripts evaluated", t.n)
+	r.Check(t.conns == "" && t.other == "", "R7", "proxy.Proxy.ServeHTTP/in-flight-along-traces", pos, "the in-flight count is exact around every attempt", n, t.conns, t.other)
+	r.Check(t.fails == "" && t.other == "", "R7", "proxy.Proxy.ServeHTTP/failures-along-traces", pos, "every failed attempt is recorded once on its backend", n, t.fails, t.other)
 }
